@@ -491,6 +491,7 @@ def run(ctx, ck):
     # ---------------------------------------------------------------- D4
     # accumulation into the field sum in every (image, azimuth) iteration (in compute_far_field or
     # in the helper it delegates the radiation integral to)
+    azimuth_loops = []
     integ = find_integrator(ctx, FAR)
     ck.ob('R-EXH.accumulate', FAR + '|integrator', len(integ) == 1, f.loc(),
           'radiation integral with image loop in %s' % [g_.qual for g_ in integ])
@@ -513,6 +514,7 @@ def run(ctx, ck):
                 return out_
             inner = outer_loops(l.body)
             ck.floor('azimuth loops inside image loop', len(inner), 1)
+            azimuth_loops.append((g_, gfl_, inner))
             body_ids = gfl_.cfg.loops[gfl_.cfg.node_of(l)][0]
             for il in inner:
                 def is_acc(n):
@@ -566,6 +568,36 @@ def run(ctx, ck):
         trig[nm] = (Poly.var('c_' + which), Poly.var('s_' + which) * Poly.const(sgn))
     ck.ob('R-POLY.triad', integ_f.qual + '|phasors', okexp and len(trig) == 2, integ_f.loc(),
           'angle phasors %s' % {k: v for k, v in exps.items()})
+    # every azimuth of the grid is integrated: the azimuth loop ranges over the complete azimuth phasor
+    # array (not a slice, a selection or an alias that may be either)
+    from ..dataflow import value_alternatives
+    azi_names = {nm for nm, (coef, arg) in exps.items() if 'azimuth' in arg}
+    ck.floor('azimuth loops checked for completeness', sum(len(inner) for g_, gfl_, inner in azimuth_loops if g_ is integ_f), 1)
+    for g_, gfl_, inner in azimuth_loops:
+        if g_ is not integ_f:
+            continue
+        for il in inner:
+            it_ = il.iter
+            if isinstance(it_, ast.Call) and isinstance(it_.func, ast.Name) and it_.func.id == 'enumerate' and len(it_.args) == 1:
+                it_ = it_.args[0]
+            alts = []
+
+            def follow(e_, at_, d_=6):
+                # aliases are followed back to the phasor array itself (or to whatever else they hold)
+                if isinstance(e_, ast.Name) and e_.id not in azi_names and e_.id in gfl_.rd.names and d_ > 0:
+                    ds_ = gfl_.def_exprs(e_.id, at_)
+                    plain = [x_ for x_ in ds_ if x_[0] == 'assign' and x_[1] is not None]
+                    if plain and len(plain) == len(ds_):
+                        for x_ in plain:
+                            follow(x_[1], x_[2], d_ - 1)
+                        return
+                alts.append((e_, at_))
+            follow(it_, gfl_.cfg.node_of(il))
+            full = bool(alts) and all(isinstance(a_, ast.Name) and a_.id in azi_names for a_, at_ in alts)
+            ck.ob('R-EXH.accumulate', g_.qual + '|all-azimuths', full, g_.loc(il),
+                  'the azimuth loop ranges over the whole azimuth grid %s' % sorted(azi_names) if full else
+                  'the azimuth loop ranges over %s: not (always) the whole azimuth grid %s - directions left out '
+                  'are not integrated' % (sorted({norm(a_) for a_, at_ in alts}), sorted(azi_names)))
     mesh = [s_ for s_ in walk_no_nested(integ_f.node) if isinstance(s_, ast.Assign) and
             isinstance(s_.value, ast.Call) and (dotted(s_.value.func) or '').endswith('meshgrid') and
             all(isinstance(a_, ast.Name) and a_.id in trig for a_ in s_.value.args)]
